@@ -74,6 +74,11 @@ def scan_crate(crate):
             for n in names:
                 h = Harness(crate=crate, module=module, name=n, prop="C" + n[1:3], macro=mi.group(1))
                 h.tier = attrs.get("tier", ["quick"])[-1]
+                for ov in attrs.get("tier-of", []):
+                    nm, tr = ov.split()
+                    if nm == n:
+                        h.tier = tr
+                        h.timeout = h.timeout or 2400
                 if "unwind" in attrs:
                     h.unwind = int(attrs["unwind"][-1])
                 for u in attrs.get("unwindset", []):
